@@ -22,6 +22,6 @@ InitC08(E, maxlen, CS) ==
           \/ \E d \in ObjDocs : InitWith("batch", st, cs, d)
           \/ \E n \in 0..maxlen : \E s \in [1..n -> E] : InitWith("batch", st, cs, [k |-> "array", els |-> s])
 InitQuick == InitC08(ElemsQuick, 4, CallSeqs3)
-InitThorough == InitC08(ElemsFull, 4, CallSeqs4)
+InitThorough == InitC08(ElemsFull, 3, CallSeqs4) \/ InitC08(ElemsQuick, 4, CallSeqs4)
 EmptyC == {}
 =============================================================================
